@@ -24,6 +24,37 @@ Theorem c17_two_signals :
 Proof. exact two_signals_proof. Qed.
 Print Assumptions c17_two_signals.
 
+(* "a remembered threat" is a signature that is in memory at that moment
+   ([remembered (s_mem s) p] above is membership in the memory list AFTER all the
+   maintenance operations of the history: store with capacity pruning,
+   import_signatures, prune_old against the clock, direct edits).  In
+   particular prune_old really forgets ... *)
+Theorem c17_prune_old_forgets :
+  forall rnd lg g s age s' out,
+    sys_step rnd lg g s (OPruneOld age) = (s', out) ->
+    forall m, In m (s_mem s') -> In m (s_mem s) /\ s_clock s - age < m_created m.
+Proof. exact prune_old_forgets. Qed.
+Print Assumptions c17_prune_old_forgets.
+
+(* ... and a forgotten threat is no second signal: after prune_old has removed
+   every signature matching fingerprint p (all older than max_age), whatever
+   maintenance follows about other patterns (store incl. capacity pruning,
+   import, prune_old, direct edits, touches, clock, flags, resets), the next
+   inspection of p is not answered from memory, and it is CONFIRMED / CRITICAL /
+   isolate / shutdown only with a canary failure, a manual flag or a repeated
+   anomaly *)
+Theorem c17_forgotten_threat_is_no_signal :
+  forall rnd g s0 age ops s1 p s2 r sp,
+    (forall m, In m (s_mem s0) -> sig_matches p m = true -> m_created m <= s_clock s0 - age) ->
+    Forall (keeps_forgotten p) ops ->
+    final rnd false g s0 (OPruneOld age :: ops) = s1 ->
+    sys_step rnd false g s1 (OInspect (Some p)) = (s2, OutResp r sp) ->
+    r_viol r <> [9] /\
+    (threat r -> exists t, s_tcell s1 = Some t /\ check (t_prof t) p <> [] /\
+                           (canary_failed (t_prof t) p = true \/ t_manual t = true \/ t_rep t <= t_anom t + 1)).
+Proof. exact forgotten_threat_proof. Qed.
+Print Assumptions c17_forgotten_threat_is_no_signal.
+
 (* what the "repeated anomaly" signal counts: from a freshly installed watcher,
    in every history, the anomaly count of a watcher that is not desensitised is
    at most the number of immediately preceding consecutive anomalous inspections *)
